@@ -10,6 +10,9 @@ from drivers import cli
 from gen import client_hist
 
 IMPORTS_FMT = 'From VT Require Import Client.CliCheck Check.%sCheck.'
+# C09 is evaluated in the extended vocabulary of Client/ClientX.v (plain operations wrapped, plus MsgNested)
+VARIANT = {'c08': ('C08', 'ccase', 'c08_code', 'c08_where', cli.ccase_term),
+           'c09': ('C09X', 'xcase', 'c09x_code', 'c09x_where', cli.xcase_term)}
 MODES = (('sync', False), ('async', True), ('async', False))
 
 TRUSTED = ['Coq 8.16.1 kernel + vm_compute (case evaluation)',
@@ -30,9 +33,9 @@ def clause_names(mask, table=CLAUSES):
 # ---------------------------------------------------------------------------------------
 # shared runner
 # ---------------------------------------------------------------------------------------
-def run_one(cfg, ops, mode, coro):
+def run_one(cfg, ops, mode, coro, name='c08'):
     results = cli.run_history(cfg, ops, mode, coro)
-    return results, cli.ccase_term(cfg, ops, results)
+    return results, VARIANT[name][4](cfg, ops, results)
 
 
 def run_histories(chk, name, histories, key_fn, shard=40):
@@ -43,7 +46,7 @@ def run_histories(chk, name, histories, key_fn, shard=40):
     for i, (cfg, ops, stats) in enumerate(histories):
         for mode, coro in (MODES if i % 2 == 0 else MODES[:2]):
             try:
-                results, term = run_one(cfg, ops, mode, coro)
+                results, term = run_one(cfg, ops, mode, coro, name)
             except Exception as e:
                 chk.broken_obligation('driver error on history %d (%s): %r' % (i, mode, e))
                 continue
@@ -55,7 +58,7 @@ def run_histories(chk, name, histories, key_fn, shard=40):
             chk.dist('op ' + o[0])
         for s, n in (stats or {}).items():
             chk.dist('gen ' + s, n)
-    codes, errors = coqio.eval_cases(name, IMPORTS_FMT % name.upper(), '', 'ccase', cases, name + '_code', shard=shard)
+    codes, errors = coqio.eval_cases(name, IMPORTS_FMT % VARIANT[name][0], '', VARIANT[name][1], cases, VARIANT[name][2], shard=shard)
     chk.traces_validated += len(cases)
     for e in errors:
         chk.broken_obligation('case evaluation failed: ' + e)
@@ -68,7 +71,7 @@ def where(code):
 
 
 def eval_terms(name, terms):
-    codes, errors = coqio.eval_cases(name + '_shr', IMPORTS_FMT % name.upper(), '', 'ccase', terms, name + '_code',
+    codes, errors = coqio.eval_cases(name + '_shr', IMPORTS_FMT % VARIANT[name][0], '', VARIANT[name][1], terms, VARIANT[name][2],
                                      shard=max(1, len(terms)))
     if errors:
         raise RuntimeError(errors[0])
@@ -89,7 +92,7 @@ def shrink(name, cfg, ops, mode, coro, keep, budget=14):
             if not cand:
                 continue
             try:
-                res, term = run_one(cfg, cand, mode, coro)
+                res, term = run_one(cfg, cand, mode, coro, name)
             except Exception:
                 continue
             cands.append((cand, res))
@@ -150,17 +153,17 @@ def report(chk, name, hs, bad, classify, max_sigs=6):
             chk.violation(sig, 'model and implementation disagree', replay, no_input=True)
 
 
-C09_CLAUSES = {4: 'event', 8: 'unique', 16: 'ack_once_right_target', 32: 'unknown_ignored', 64: 'call'}
+C09_CLAUSES = {4: 'event', 8: 'unique', 16: 'ack_once_right_target', 32: 'unknown_ignored', 64: 'call', 128: 'nested'}
 
 
 def replay_common(chk, data, name):
     cfg, ops, mode, coro = ast.literal_eval(data['replay']['py'])
-    results, term = run_one(cfg, ops, mode, coro)
+    results, term = run_one(cfg, ops, mode, coro, name)
     code = eval_terms(name, [term])[0]
     print('checker code (bit 1 = model/implementation disagree, bit 2 = property violated, bits 4..128 = clauses, // 1024 = index of the first failing operation):', code)
-    rc, out = coqio.eval_print(name + '_replay', IMPORTS_FMT % name.upper(), '',
-                               ['%s_where %s' % (name, term),
-                                'first_diff (k_cfg %s) cli_init (k_ops %s) (k_obs %s) 0' % (term, term, term)])
+    diff = ('first_diff (k_cfg %s) cli_init (k_ops %s) (k_obs %s) 0' if name == 'c08' else
+            'xfirst_diff (x_cfg %s) cli_init (x_ops %s) (x_obs %s) 0') % (term, term, term)
+    rc, out = coqio.eval_print(name + '_replay', IMPORTS_FMT % VARIANT[name][0], '', ['%s %s' % (VARIANT[name][3], term), diff])
     print(out[-2500:])
     for o, (e, _, d) in zip(ops, results):
         print(o, '=>', e, d)
